@@ -57,6 +57,7 @@ let rec ty = function
   | L (Atom "G" :: b :: ts) -> let (k, c) = base b in TGen (k, c, List.map ty ts)
   | L (Atom "T" :: b :: ts) -> let (k, c) = base b in TTup (k, c, List.map ty ts)
   | L (Atom "F" :: b :: ts) -> let (k, c) = base b in TCall (k, c, List.map ty ts)
+  | L (Atom "V" :: n :: sc :: hb :: ts) -> TVar (natx n, natx sc, boolx hb, List.map ty ts)
   | _ -> failwith "ty"
 
 let oty = function Atom "-" -> None | x -> Some (ty x)
@@ -68,7 +69,10 @@ let oparam = function Atom "-" -> None | x -> Some (param x)
 let sg = function
   | L [Atom "S"; L (Atom "params" :: ps); st; ss; rt; L (Atom "exc" :: ex)] ->
     { s_params = List.map param ps; s_star = oparam st; s_starstar = oparam ss; s_ret = ty rt;
-      s_exc = List.map ty ex }
+      s_exc = List.map ty ex; s_template = [] }
+  | L [Atom "S"; L (Atom "params" :: ps); st; ss; rt; L (Atom "exc" :: ex); L (Atom "tmpl" :: tm)] ->
+    { s_params = List.map param ps; s_star = oparam st; s_starstar = oparam ss; s_ret = ty rt;
+      s_exc = List.map ty ex; s_template = List.map ty tm }
   | _ -> failwith "sig"
 let func = function
   | L (Atom "D" :: nm :: kd :: sigs) -> { f_name = natx nm; f_kind = natx kd; f_sigs = List.map sg sigs }
@@ -79,7 +83,10 @@ let const = function
 let cls = function
   | L [Atom "C"; id; L (Atom "bases" :: bs); L (Atom "methods" :: ms); L (Atom "consts" :: cs)] ->
     { cl_name = natx id; cl_bases = List.map base bs; cl_methods = List.map func ms;
-      cl_consts = List.map const cs }
+      cl_consts = List.map const cs; cl_template = [] }
+  | L [Atom "C"; id; L (Atom "bases" :: bs); L (Atom "methods" :: ms); L (Atom "consts" :: cs); L (Atom "tmpl" :: tm)] ->
+    { cl_name = natx id; cl_bases = List.map base bs; cl_methods = List.map func ms;
+      cl_consts = List.map const cs; cl_template = List.map ty tm }
   | _ -> failwith "class"
 let unit_ = function
   | L [Atom "unit"; L (Atom "consts" :: cs); L (Atom "classes" :: cl); L (Atom "funcs" :: fs)] ->
@@ -110,6 +117,8 @@ let rec pty b t =
   | TGen (k, c, ts) -> lst "G" (Some (pbase (k, c))) ts
   | TTup (k, c, ts) -> lst "T" (Some (pbase (k, c))) ts
   | TCall (k, c, ts) -> lst "F" (Some (pbase (k, c))) ts
+  | TVar (n, sc, hb, ts) ->
+    lst "V" (Some (string_of_int (int_of_nat n) ^ " " ^ string_of_int (int_of_nat sc) ^ " " ^ (if hb then "1" else "0"))) ts
 let poty b = function None -> Buffer.add_char b '-' | Some t -> pty b t
 let pparam b p =
   Buffer.add_string b ("(P " ^ string_of_int (int_of_nat p.p_name) ^ " "); pty b p.p_ty;
@@ -120,7 +129,10 @@ let psig b s =
   Buffer.add_string b "(S (params"; List.iter (fun p -> Buffer.add_char b ' '; pparam b p) s.s_params;
   Buffer.add_string b ") "; poparam b s.s_star; Buffer.add_char b ' '; poparam b s.s_starstar;
   Buffer.add_char b ' '; pty b s.s_ret; Buffer.add_string b " (exc";
-  List.iter (fun t -> Buffer.add_char b ' '; pty b t) s.s_exc; Buffer.add_string b "))"
+  List.iter (fun t -> Buffer.add_char b ' '; pty b t) s.s_exc; Buffer.add_string b ")";
+  if s.s_template <> [] then begin
+    Buffer.add_string b " (tmpl"; List.iter (fun t -> Buffer.add_char b ' '; pty b t) s.s_template; Buffer.add_string b ")" end;
+  Buffer.add_string b ")"
 let pfunc b f =
   Buffer.add_string b ("(D " ^ string_of_int (int_of_nat f.f_name) ^ " " ^ string_of_int (int_of_nat f.f_kind));
   List.iter (fun s -> Buffer.add_char b ' '; psig b s) f.f_sigs; Buffer.add_char b ')'
@@ -129,7 +141,10 @@ let pcls b c =
   Buffer.add_string b ("(C " ^ string_of_int (int_of_nat c.cl_name) ^ " (bases");
   List.iter (fun x -> Buffer.add_string b (" " ^ pbase x)) c.cl_bases; Buffer.add_string b ") (methods";
   List.iter (fun f -> Buffer.add_char b ' '; pfunc b f) c.cl_methods; Buffer.add_string b ") (consts";
-  List.iter (fun k -> Buffer.add_char b ' '; pconst b k) c.cl_consts; Buffer.add_string b "))"
+  List.iter (fun k -> Buffer.add_char b ' '; pconst b k) c.cl_consts; Buffer.add_string b ")";
+  if c.cl_template <> [] then begin
+    Buffer.add_string b " (tmpl"; List.iter (fun t -> Buffer.add_char b ' '; pty b t) c.cl_template; Buffer.add_string b ")" end;
+  Buffer.add_string b ")"
 let punit b u =
   Buffer.add_string b "(unit (consts"; List.iter (fun k -> Buffer.add_char b ' '; pconst b k) u.u_consts;
   Buffer.add_string b ") (classes"; List.iter (fun c -> Buffer.add_char b ' '; pcls b c) u.u_classes;
@@ -150,7 +165,9 @@ let () =
             (* is the result in optimiser normal form (Spec.stable_unit)?  monitored by the check *)
             let forced = oo.o_deps && oo.o_can_do_lookup in
             let st = stable_unit KClass oo hh r || ((not forced) && stable_unit KNamed oo hh r) in
-            Buffer.add_string b (if st then "\tS" else "\tN")
+            Buffer.add_string b (if st then "\tS" else "\tN");
+            (* second_run_stable: every enabled step on its own leaves the result alone (Opt/SecondRun.v) *)
+            Buffer.add_string b (if second_run_stable oo hh r then "\tR" else "\tX")
           | None -> Buffer.add_string b "ERR")
        | L [Atom "case"; Atom "T"; o; _; t] ->
          (match opt_ty (opts o) (ty t) with Some r -> pty b r | None -> Buffer.add_string b "ERR")
